@@ -88,6 +88,7 @@ def feasible(p, env=None):
     from . import alg
     env = env if env is not None else const_env()
     for c in cond_leaves(p):
+        if isinstance(c, B) and c.k == 'const' and not c.a[0]: return False
         if not isinstance(c, B) or c.k not in ('gt0', 'ge0', 'eq0', 'ne0'): continue
         at = c.atoms()
         if at and all(a in env for a in at):
